@@ -19,6 +19,7 @@ import uuid
 import logging
 import argparse
 import tempfile
+import ipaddress
 import contextlib
 import subprocess
 from typing import List, Tuple, Optional, Generator
@@ -173,7 +174,14 @@ def get_ext_config(
     if alt_subj_names is not None and len(alt_subj_names) > 0:
         alt_names = []
         for cname in alt_subj_names:
-            alt_names.append(b'DNS:%s' % bytes_(cname))
+            # IP address literals (IPv6 ones possibly in URL brackets) must
+            # go into an IP entry, clients don't match them against DNS entries.
+            literal = bytes_(cname).strip(b'[]')
+            try:
+                ipaddress.ip_address(literal.decode())
+                alt_names.append(b'IP:%s' % literal)
+            except ValueError:
+                alt_names.append(b'DNS:%s' % bytes_(cname))
         config += b'\nsubjectAltName=' + COMMA.join(alt_names)
     # Add extendedKeyUsage section
     if extended_key_usage is not None:
